@@ -191,13 +191,14 @@ func Execute(b *[]byte, p unsafe.Pointer, s *vars.Stack, flags uint64, prog *ir.
 			}
 		case ir.OP_eface:
 			*b = buf
-			if err := EncodeTypedPointer(b, *(**rt.GoType)(p), (*unsafe.Pointer)(rt.Add(p, 8)), s, flags); err != nil {
+			// a value held in an interface is never addressable
+			if err := EncodeTypedPointer(b, *(**rt.GoType)(p), (*unsafe.Pointer)(rt.Add(p, 8)), s, flags&^(1<<alg.BitPointerValue)); err != nil {
 				return err
 			}
 			buf = *b
 		case ir.OP_iface:
 			*b = buf
-			if err := EncodeTypedPointer(b, (*(**rt.GoItab)(p)).Vt, (*unsafe.Pointer)(rt.Add(p, 8)), s, flags); err != nil {
+			if err := EncodeTypedPointer(b, (*(**rt.GoItab)(p)).Vt, (*unsafe.Pointer)(rt.Add(p, 8)), s, flags&^(1<<alg.BitPointerValue)); err != nil {
 				return err
 			}
 			buf = *b
